@@ -266,9 +266,7 @@ class WebSocketWriter:
         """Close the websocket, sending the specified code and message."""
         if isinstance(message, str):
             message = message.encode("utf-8")
-        try:
-            await self.send_frame(
-                PACK_CLOSE_CODE(code) + message, opcode=WSMsgType.CLOSE
-            )
-        finally:
-            self._closing = True
+        # From here on no data frame may be written: another task's send must
+        # not slip in while the Close frame waits for the transport to drain.
+        self._closing = True
+        await self.send_frame(PACK_CLOSE_CODE(code) + message, opcode=WSMsgType.CLOSE)
